@@ -69,7 +69,7 @@ func c04Gen(r *core.Rand, tier string) any {
 		k.SnapshotReapThreshold = r.Range(2, 4)
 	}
 	sc.Knobs = k
-	sc.Two = r.Bool(0.3)
+	sc.Two = r.Bool(0.35)
 	nops := r.Range(8, 25)
 	joined, parted := false, false
 	for i := 0; i < nops; i++ {
@@ -125,7 +125,56 @@ func c04Gen(r *core.Rand, tier string) any {
 			}
 		}
 	}
+	// Motifs: the combinations the property text singles out (a staged WAL that
+	// was retained by a skipped/failed persist, followed by something that
+	// replaces the base) are rare under independent sampling, so some runs get
+	// one spliced in at a random position.
+	w := func() c04Op {
+		return c04Op{K: "w", N: r.Range(1, 5), Pad: []int{0, 200, 3000}[r.Intn(3)], Seed: r.Uint64() >> 1}
+	}
+	retain := func(k string) c04Op { return c04Op{K: k, F: c04Faults[r.Intn(3)]} }
+	var motif []c04Op
+	switch x := r.Intn(100); {
+	case x < 30 && !(sc.Two && x < 15):
+		motif = []c04Op{w(), {K: "snap"}, w(), retain("snap")}
+		switch r.Intn(4) {
+		case 0:
+			motif = append(motif, c04Op{K: "load", N: r.Range(1, 8), Pad: r.Intn(3) * 900})
+		case 1:
+			motif = append(motif, c04Op{K: "boot", N: r.Range(1, 8), Pad: r.Intn(3) * 900})
+		case 2:
+			motif = append(motif, w(), retain("snap"), c04Op{K: "load", N: r.Range(1, 8)})
+		default:
+			motif = append(motif, c04Op{K: "crash", Rm: r.Bool(0.5)})
+		}
+		motif = append(motif, c04Op{K: "snap"}, w(), c04Op{K: "snap", N: r.Intn(2)}, w())
+	case x < 50 && sc.Two:
+		if !joined {
+			motif = append(motif, c04Op{K: "join2"})
+		}
+		if parted {
+			motif = append(motif, c04Op{K: "heal2"})
+		}
+		motif = append(motif, w(), c04Op{K: "snap2"}, w(), retain("snap2"), c04Op{K: "part2"}, w(), w(), w(),
+			c04Op{K: "snap", N: 1}, c04Op{K: "heal2"}, c04Op{K: "run", N: r.Range(1500, 4000)}, w(), c04Op{K: "snap2"}, c04Op{K: "rebuild2"}, w())
+	}
+	if len(motif) > 0 {
+		at := r.Intn(len(sc.Ops) + 1)
+		if sc.Two && motif[0].K != "join2" && !containsOp(sc.Ops[:at], "join2") && containsOp(motif, "snap2") {
+			motif = append([]c04Op{{K: "join2"}}, motif...)
+		}
+		sc.Ops = append(sc.Ops[:at:at], append(motif, sc.Ops[at:]...)...)
+	}
 	return sc
+}
+
+func containsOp(ops []c04Op, k string) bool {
+	for _, o := range ops {
+		if o.K == k {
+			return true
+		}
+	}
+	return false
 }
 
 // c04Batch derives the statements of a write batch from its content seed.
@@ -163,6 +212,7 @@ type c04Eng struct {
 	joined   bool
 	parted   bool
 	fatalImg bool
+	restores int64 // num_restores accounted for (restarts and rebuild clones)
 }
 
 func c04Run(c *core.Ctx, raw json.RawMessage) {
@@ -173,21 +223,21 @@ func c04Run(c *core.Ctx, raw json.RawMessage) {
 	c.Rng = core.NewRand(sc.Seed)
 	s := sim.New(c)
 	defer s.Shutdown()
-	e := &c04Eng{c: c, sc: &sc, s: s, h: newHookCtl(c)}
+	e := &c04Eng{c: c, sc: &sc, s: s, h: newHookCtl(c), restores: storeStat("num_restores")}
 	e.h.logHits = false
 	// error injection only; the fatal handler models rqlite's deliberate exit
 	// (Sink.Close failing after the staged WALs were consumed) as a crash.
 	verifx.InstallHooks(e.h.hit, nil, nil, nil, e.fatal)
 	defer unhook()
 	if err := s.Boot(1, sc.Knobs, nil); err != nil {
-		c.Discard("boot-failed: " + err.Error())
+		c.Discard("boot-failed: " + clean(c, err.Error()))
 		return
 	}
 	e.n1 = s.Nodes[1]
 	var err error
 	s.Do("schema", 60*time.Second, func() { err = execStmts(e.n1, []string{tblSchema}, false) })
 	if err != nil {
-		c.Discard("schema-failed: " + err.Error())
+		c.Discard("schema-failed: " + clean(c, err.Error()))
 		return
 	}
 	e.h.armed = true
@@ -208,7 +258,7 @@ func c04Run(c *core.Ctx, raw json.RawMessage) {
 // fatal is installed as verifhook's Fatal handler: image the directory right
 // there (the process would exit here), let the caller return its error.
 func (e *c04Eng) fatal(point string, err error) bool {
-	e.c.Log.Add("fatal exit point %s: %v", point, err)
+	logf(e.c, "fatal exit point %s: %v", point, err)
 	e.c.Fault("fatal@" + point)
 	img := e.n1.Dir + ".fatal"
 	os.RemoveAll(img)
@@ -266,7 +316,7 @@ func (e *c04Eng) snapshot(i int, n *node.Node, op c04Op) {
 		s.Do(fmt.Sprintf("op%d snap %s %d %s", i, n.ID, op.N, op.F), 120*time.Second, func() { err = n.Store.Snapshot(uint64(op.N)) })
 		e.disarm()
 	}
-	c.Log.Add("op%d snapshot %s f=%s: %v", i, n.ID, op.F, errClass(err))
+	logf(c, "op%d snapshot %s f=%s: %v", i, n.ID, op.F, errClass(err))
 	if err == nil && op.F != "skip" {
 		c.Probe("snapshot_ok")
 	}
@@ -293,7 +343,7 @@ func (e *c04Eng) snapshot(i int, n *node.Node, op c04Op) {
 		e.fatalImg = false
 		c.Fault("exit-after-wal-consumed")
 		if terr := tearDownTo(s, n, n.Dir+".fatal"); terr != nil {
-			c.Discard("teardown-failed: " + terr.Error())
+			c.Discard("teardown-failed: " + clean(c, terr.Error()))
 			return
 		}
 		e.restart(n, false, "exit")
@@ -317,7 +367,7 @@ func (e *c04Eng) restart(n *node.Node, rm bool, why string) {
 	sk := storeStat("num_restores_start_skipped")
 	crcBad := false
 	if err := startNode(s, n, &crcBad); err != nil {
-		c.Violate("restart-failed", "%s does not open after %s: %v", n.ID, why, err)
+		violate(c, "restart-failed", "%s does not open after %s: %v", n.ID, why, err)
 		return
 	}
 	if storeStat("num_restores_start_skipped") > sk {
@@ -325,14 +375,15 @@ func (e *c04Eng) restart(n *node.Node, rm bool, why string) {
 	} else {
 		c.Probe("restart_rebuild_path")
 	}
+	e.restores = storeStat("num_restores")
 	if n == e.n1 {
 		if err := settle(s, n); err != nil {
-			c.Violate("restart-no-leader", "%s not ready after %s: %v", n.ID, why, err)
+			violate(c, "restart-no-leader", "%s not ready after %s: %v", n.ID, why, err)
 			return
 		}
 	}
 	if crcBad {
-		c.Violate("fingerprint-crc-mismatch", "%s: clean-snapshot fingerprint matched mtime and size but not the CRC after %s", n.ID, why)
+		violate(c, "fingerprint-crc-mismatch", "%s: clean-snapshot fingerprint matched mtime and size but not the CRC after %s", n.ID, why)
 	}
 }
 
@@ -344,7 +395,7 @@ func (e *c04Eng) doOp(i int, op c04Op) {
 		var err error
 		s.Do(fmt.Sprintf("op%d w n=%d", i, len(stmts)), 120*time.Second, func() { err = execStmts(n, stmts, false) })
 		if err != nil {
-			c.Log.Add("op%d write: %v", i, errClass(err))
+			logf(c, "op%d write: %v", i, errClass(err))
 			c.Probe("write_error")
 		} else {
 			c.Probe("write_batches")
@@ -362,7 +413,7 @@ func (e *c04Eng) doOp(i int, op c04Op) {
 		var a, b int
 		var err error
 		s.Do(fmt.Sprintf("op%d reap", i), 120*time.Second, func() { a, b, err = n.Store.Reap() })
-		c.Log.Add("op%d reap: %d %d %v", i, a, b, errClass(err))
+		logf(c, "op%d reap: %d %d %v", i, a, b, errClass(err))
 		if err == nil && a > 0 {
 			c.Probe("reaped")
 		}
@@ -374,7 +425,7 @@ func (e *c04Eng) doOp(i int, op c04Op) {
 		}
 		data, err := makeLoadDB(s.Dir, e.loadNo, rows)
 		if err != nil {
-			c.Discard("harness: makeLoadDB: " + err.Error())
+			c.Discard("harness: makeLoadDB: " + clean(c, err.Error()))
 			return
 		}
 		_, staged := snapDirs(n.Dir)
@@ -385,7 +436,7 @@ func (e *c04Eng) doOp(i int, op c04Op) {
 				_, err = n.Store.ReadFrom(bytes.NewReader(data))
 			}
 		})
-		c.Log.Add("op%d %s: %v", i, op.K, errClass(err))
+		logf(c, "op%d %s: %v", i, op.K, errClass(err))
 		if err == nil {
 			c.Probe(op.K + "_ok")
 			if staged > 0 {
@@ -398,7 +449,7 @@ func (e *c04Eng) doOp(i int, op c04Op) {
 		e.restart(n, op.Rm, "clean close")
 	case "crash":
 		if err := s.Crash(1); err != nil {
-			c.Discard("crash-failed: " + err.Error())
+			c.Discard("crash-failed: " + clean(c, err.Error()))
 			return
 		}
 		e.restart(n, op.Rm, "crash")
@@ -410,7 +461,7 @@ func (e *c04Eng) doOp(i int, op c04Op) {
 		}
 		s.AddNode(e.sc.Knobs)
 		if err := s.StartAndJoin(2, false); err != nil {
-			c.Discard("join-failed: " + err.Error())
+			c.Discard("join-failed: " + clean(c, err.Error()))
 			return
 		}
 		e.n2 = s.Nodes[2]
@@ -433,7 +484,7 @@ func (e *c04Eng) doOp(i int, op c04Op) {
 			return
 		}
 		if err := s.Crash(2); err != nil {
-			c.Discard("crash-failed: " + err.Error())
+			c.Discard("crash-failed: " + clean(c, err.Error()))
 			return
 		}
 		e.restart(e.n2, true, "crash of the follower")
@@ -447,9 +498,14 @@ func (e *c04Eng) check(i int, op c04Op) {
 		return
 	}
 	synctest.Wait()
+	if r := storeStat("num_restores"); r > e.restores {
+		// a restore that is neither a restart nor a rebuild clone: InstallSnapshot on the follower
+		c.ProbeN("follower_snapshot_install", int(r-e.restores))
+		e.restores = r
+	}
 	live, err := s.DumpNode(n)
 	if err != nil {
-		c.Violate("live-dump-failed", "after op %d (%s): live database unreadable: %v", i, op.K, err)
+		violate(c, "live-dump-failed", "after op %d (%s): live database unreadable: %v", i, op.K, err)
 		return
 	}
 	nsnap, staged := snapDirs(n.Dir)
@@ -458,7 +514,7 @@ func (e *c04Eng) check(i int, op c04Op) {
 	os.RemoveAll(base)
 	cn := node.New(simnet.New(), 1, base, node.Knobs{NoSnapshotOnClose: true})
 	if err := node.CopyTree(n.Dir, cn.Dir); err != nil {
-		c.Discard("image-failed: " + err.Error())
+		c.Discard("image-failed: " + clean(c, err.Error()))
 		return
 	}
 	removeFingerprint(cn.Dir)
@@ -466,15 +522,21 @@ func (e *c04Eng) check(i int, op c04Op) {
 	defer func() { e.h.armed = true }()
 	rest0 := storeStat("num_restores")
 	if err := startNode(s, cn, nil); err != nil {
-		c.Violate("rebuild-failed", "after op %d (%s): a node started from the image of the directory (snapshots=%d staged=%d) does not open: %v", i, op.K, nsnap, staged, err)
+		violate(c, "rebuild-failed", "after op %d (%s): a node started from the image of the directory (snapshots=%d staged=%d) does not open: %v", i, op.K, nsnap, staged, err)
 		return
 	}
-	defer func() {
-		s.Do("stop-clone", 300*time.Second, func() { cn.Stop() })
-		os.RemoveAll(base)
-	}()
+	stopped := false
+	stopClone := func() {
+		if !stopped {
+			stopped = true
+			s.Do("stop-clone", 300*time.Second, func() { cn.Stop() })
+			os.RemoveAll(base)
+			e.restores = storeStat("num_restores")
+		}
+	}
+	defer stopClone()
 	if err := settle(s, cn); err != nil {
-		c.Violate("rebuild-no-leader", "after op %d (%s): node rebuilt from the image is not ready: %v", i, op.K, err)
+		violate(c, "rebuild-no-leader", "after op %d (%s): node rebuilt from the image is not ready: %v", i, op.K, err)
 		return
 	}
 	if storeStat("num_restores") > rest0 {
@@ -482,24 +544,25 @@ func (e *c04Eng) check(i int, op c04Op) {
 	}
 	cd, err := s.DumpNode(cn)
 	if err != nil {
-		c.Violate("rebuild-dump-failed", "after op %d (%s): rebuilt database unreadable: %v", i, op.K, err)
+		violate(c, "rebuild-dump-failed", "after op %d (%s): rebuilt database unreadable: %v", i, op.K, err)
 		return
 	}
 	e.checks++
 	c.Probe("rebuild_checks")
 	if cd != live {
-		c.Violate("rebuild-differs", "after op %d (%s, snapshots=%d staged-wals=%d): newest snapshot + log rebuilds a database different from the live one: %s", i, op.K+"/"+op.F, nsnap, staged, sim.FirstDiff(cd, live))
+		violate(c, "rebuild-differs", "after op %d (%s, snapshots=%d staged-wals=%d): newest snapshot + log rebuilds a database different from the live one: %s", i, op.K+"/"+op.F, nsnap, staged, sim.FirstDiff(cd, live))
 		return
 	}
 	c.Sig(fmt.Sprintf("%d/%d/%d", nsnap, staged, len(live)))
-	c.Log.Add("op%d check ok snaps=%d staged=%d len=%d", i, nsnap, staged, len(live))
+	logf(c, "op%d check ok snaps=%d staged=%d len=%d", i, nsnap, staged, len(live))
+	stopClone()
 
 	// second node: same applied index => same database
 	if e.n2 != nil && e.n2.Up && !e.parted {
-		inst0 := storeStat("num_restores")
 		ok := s.RunUntil(func() bool { return e.n2.Store.AppliedIndex() >= n.Store.AppliedIndex() && s.PendingTasks() == 0 }, 30*time.Second)
-		if storeStat("num_restores") > inst0 {
-			c.Probe("follower_snapshot_install")
+		if r := storeStat("num_restores"); r > e.restores {
+			c.ProbeN("follower_snapshot_install", int(r-e.restores))
+			e.restores = r
 		}
 		if !ok {
 			c.Probe("follower_not_caught_up")
@@ -511,12 +574,12 @@ func (e *c04Eng) check(i int, op c04Op) {
 		}
 		fd, err := s.DumpNode(e.n2)
 		if err != nil {
-			c.Violate("follower-dump-failed", "after op %d (%s): follower database unreadable: %v", i, op.K, err)
+			violate(c, "follower-dump-failed", "after op %d (%s): follower database unreadable: %v", i, op.K, err)
 			return
 		}
 		c.Probe("follower_checks")
 		if fd != live2 {
-			c.Violate("follower-differs", "after op %d (%s): follower at the leader's applied index has a different database: %s", i, op.K+"/"+op.F, sim.FirstDiff(fd, live2))
+			violate(c, "follower-differs", "after op %d (%s): follower at the leader's applied index has a different database: %s", i, op.K+"/"+op.F, sim.FirstDiff(fd, live2))
 		}
 	}
 }
